@@ -817,7 +817,10 @@ static std::vector<Opts> plan(const std::string& name) {
     p.push_back({{"scope", "poly"}, {"nmin", "3"}, {"nmax", "3"}, {"cyclic", "0"}, {"rects", "quick"}, {"probes", "0"}});
     p.push_back({{"scope", "poly"}, {"nmin", "3"}, {"nmax", "3"}, {"cyclic", "1"}, {"rects", "quick"}, {"mag", "1"}, {"res", "512"}});
     p.push_back({{"scope", "poly"}, {"nmin", "3"}, {"nmax", "4"}, {"cyclic", "1"}, {"rects", "quick"}});
+    // a 7x7 lattice round a small off-centre rectangle: vertices on the extension of a side far beyond the corners, edges through a corner
+    p.push_back({{"scope", "poly"}, {"nmin", "3"}, {"nmax", "4"}, {"cyclic", "0"}, {"sub", "7"}, {"rects", "40,40 80,60"}, {"probes", "0"}});
   } else if (name == "c08thorough") {
+    p.push_back({{"scope", "poly"}, {"nmin", "3"}, {"nmax", "4"}, {"cyclic", "0"}, {"sub", "7"}, {"rects", "40,40 80,60;40,40 60,80;20,40 80,60"}, {"probes", "0"}});
     p.push_back({{"scope", "laps"}, {"laps", "3"}, {"rects", RLAPS}, {"mag", "2"}, {"res", "512"}});
     p.push_back({{"scope", "pairs"}, {"nmin", "3"}, {"nmax", "4"}, {"cyclic", "0"}, {"wo", "0"}, {"ws", "40"}, {"rects", "core"}});
     p.push_back({{"scope", "pairs"}, {"nmin", "3"}, {"nmax", "4"}, {"cyclic", "0"}, {"wo", "20"}, {"ws", "20"}, {"rects", "30,30 50,50;20,20 60,60"}});
